@@ -132,7 +132,9 @@ OPS = (
     [("set", k) for k in ["0", "-0", '"a"', '"A"', "KA", "[1,2]", "{0}", "{-0}"]] +
     [("del", k) for k in ["0", '"a"', "KA", "[1]", "{0}"]] +
     [("mut", "push"), ("mut", "pop"), ("copy",), ("cset", '"a"'), ("cdel", "0")] +
-    [("set", "KN"), ("del", "[[1]]"), ("mut", "inner-push"), ("mut", "inner-pop")]
+    [("set", "KN"), ("del", "[[1]]"), ("mut", "inner-push"), ("mut", "inner-pop")] +
+    # what `keys` hands out are copies too: changing them (or their elements) changes nothing in the map
+    [("mut", "keys-push"), ("mut", "keys-inner-push")]
 )
 INITS = ["empty", "from-array"]
 
@@ -218,6 +220,10 @@ def check_hist(ws, case):
             elif op[1] == "pop":
                 lines.append("if (count KA > 1) then { KA deleteAt 1 };")
                 ka = (ka[0][:1] + ka[0][2:], ka[1])
+            elif op[1] == "keys-push":
+                lines.append("{ if (_x isEqualType []) then { _x pushBack 7 } } forEach (keys M);")
+            elif op[1] == "keys-inner-push":
+                lines.append("{ if (_x isEqualType [] && {count _x > 0} && {(_x select 0) isEqualType []}) then { (_x select 0) pushBack 7 } } forEach (keys M);")
             elif op[1] == "inner-push":
                 lines.append("KI pushBack 2;")
                 ka = (ka[0], ka[1] + [2])
